@@ -18,6 +18,7 @@ import (
 	"github.com/notaryproject/notation-go"
 	"github.com/notaryproject/notation-go/config"
 	"github.com/notaryproject/notation-go/dir"
+	"github.com/notaryproject/notation-go/plugin"
 	"github.com/notaryproject/notation-go/registry"
 	"github.com/notaryproject/notation-go/verifier"
 	"github.com/notaryproject/notation-go/verifier/crl"
@@ -498,6 +499,41 @@ func runFuzzBytes() int {
 				os.RemoveAll(cfg)
 				obs.Panic, obs.Note = pn, msg
 				emit(k, "files", obs)
+			case "odd-roots":
+				// the directories the library is pointed at are not directories: a path below a regular file, below /dev/null, a file, a
+				// dangling link, nothing at all, the empty string - every component handed such a root answers with an error or emptiness
+				base, err := os.MkdirTemp(*flagScratch, "oddroot")
+				must(err)
+				must(os.WriteFile(filepath.Join(base, "file"), []byte("x"), 0644))
+				_ = os.Symlink(filepath.Join(base, "nowhere"), filepath.Join(base, "dangling"))
+				roots := []string{filepath.Join(base, "file", "below"), "/dev/null/notation", filepath.Join(base, "file"), filepath.Join(base, "dangling"),
+					filepath.Join(base, "absent", "deeper"), "", "\x00", filepath.Join(base, "dangling", "below")}
+				root := roots[k%len(roots)]
+				pn, msg := guarded(func() {
+					mgr := plugin.NewCLIManager(dir.NewSysFS(root))
+					_, _ = mgr.List(ctx)
+					_, _ = mgr.Get(ctx, "p")
+					_ = mgr.Uninstall(ctx, "p")
+					_, _, _ = mgr.Install(ctx, plugin.CLIInstallOptions{PluginPath: root})
+					ts := truststore.NewX509TrustStore(dir.NewSysFS(root))
+					_, _ = ts.GetCertificates(ctx, truststore.TypeCA, "s1")
+					if cache, err := crl.NewFileCache(root); err == nil && cache != nil {
+						_, _ = cache.Get(ctx, "http://crl.verif.example/x.crl")
+						_ = cache.Set(ctx, "http://crl.verif.example/x.crl", jobBundle("w1", 1, 0))
+					}
+					_, _ = registry.NewOCIRepository(root, registry.RepositoryOptions{})
+					old := dir.UserConfigDir
+					dir.UserConfigDir = root
+					_, _ = trustpolicy.LoadOCIDocument()
+					_, _ = trustpolicy.LoadBlobDocument()
+					_, _ = config.LoadSigningKeys()
+					_, _ = config.LoadConfig()
+					_, _ = verifier.NewOCIVerifierFromConfig()
+					dir.UserConfigDir = old
+				})
+				os.RemoveAll(base)
+				obs.Panic, obs.Note = pn, msg
+				emit(k, "roots", obs)
 			case "cache-file":
 				root, err := os.MkdirTemp(*flagScratch, "cachefuzz")
 				must(err)
